@@ -630,6 +630,79 @@ def data_received(u: U):
             "the transport is paused exactly when the queue of unhandled requests reaches its cap")
 
 
+@unit("C05", "data_received.after_upgrade", functions=[f"{MOD}:RequestHandler.data_received",
+                                                        f"{MOD}:RequestHandler._pause_msg_queue_reading"],
+      must_cover=("C05.data.upgraded.stored", "C05.data.upgraded.fed"))
+def data_received_after_upgrade(u: U):
+    """data_received once the connection left HTTP: without a payload parser the bytes are set aside in arrival order
+    (nothing lost, nothing reordered) and reading pauses once a read buffer's worth is waiting; with a payload parser
+    (WebSocket reader, custom protocol) every read is handed to it exactly once and its end-of-stream closes the
+    connection; the HTTP parser is never consulted again"""
+    log = []
+    has_parser = u.choose(2, "payload_parser_installed") == 1
+    parser_eof = u.bool("payload_parser_reports_eof")
+    cb_set = u.choose(2, "data_received_cb") == 1
+    paused0 = u.choose(2, "already_paused") == 1
+
+    class _Http:
+        def feed_data(self, d):
+            log.append(("http.parse", d))
+            return [], False, b""
+
+    class _PP:
+        def feed_data(self, d):
+            log.append(("payload.feed", d))
+            return parser_eof, b""
+
+    class _T:
+        def pause_reading(self):
+            log.append(("pause",))
+
+    tail0 = u.bytes("tail_before")
+    data = u.bytes("data")
+    bufsize = u.int("read_bufsize", 1)
+    pm = u.load(MOD, "RequestHandler._pause_msg_queue_reading")
+    h = u.obj("RequestHandler",
+              {"_force_close": False, "_close": False, "_payload_parser": _PP() if has_parser else None, "_upgraded": True,
+               "_request_in_progress": True, "_parser": _Http(), "_request_count": 1,
+               "_messages": collections_deque([]), "_waiter": None, "_msg_queue_paused": paused0,
+               "_max_msg_queue_size": 2, "_message_tail": tail0, "transport": _T(), "_read_bufsize": bufsize,
+               "_data_received_cb": (lambda: log.append(("cb",))) if cb_set else None},
+              {"_pause_msg_queue_reading": lambda self: pm(self),
+               "close": lambda self: log.append(("close",))}, shared=False, real=(MOD, "RequestHandler"))
+    f = u.load(MOD, "RequestHandler.data_received")
+    out = u.call(f, h, data)
+    u.check("C05.data.upgraded.total", out.ok, f"no exception reaches the event loop: {out!r}")
+    names = [e[0] for e in log]
+    fs = fields(h)
+    from pyvc import SBytes, blen
+
+    u.check("C05.data.upgraded.http_parser_not_consulted", "http.parse" not in names,
+            "bytes of the upgraded protocol are never read as HTTP")
+    if not has_parser:
+        tail1 = SBytes.of(fs["_message_tail"])
+        u.check("C05.data.upgraded.tail_is_appended_in_order", tail1.prov_eq(SBytes.of(tail0) + SBytes.of(data)),
+                "set aside == what was set aside before ++ this read: nothing lost, duplicated or reordered")
+        want_pause = And(blen(data) > 0, Not(paused0), blen(tail1) >= bufsize)
+        u.check("C05.data.upgraded.pauses_at_read_buffer", Iff(("pause",) in log, want_pause),
+                "reading is paused exactly when a read buffer's worth of unclaimed bytes is waiting (and not already paused)")
+        u.cover("C05.data.upgraded.stored")
+        return
+    feeds = [e for e in log if e[0] == "payload.feed"]
+    nonempty = blen(data) > 0
+    u.check("C05.data.upgraded.fed_once_as_it_is", And(Iff(len(feeds) == 1, nonempty), len(feeds) <= 1,
+                                                       feeds[0][1] is data if feeds else True),
+            "every non-empty read is handed to the installed payload parser exactly once, unchanged")
+    u.check("C05.data.upgraded.parser_eof_closes", Iff(("close",) in log, And(nonempty, parser_eof)),
+            "the payload parser's end-of-stream closes the connection - and nothing else does here")
+    if cb_set:
+        u.check("C05.data.upgraded.activity_reported", Iff(("cb",) in log, nonempty),
+                "the read-activity callback (heartbeat reset) runs for every non-empty read")
+    u.check("C05.data.upgraded.tail_untouched", SBytes.of(fs["_message_tail"]).prov_eq(SBytes.of(tail0)),
+            "with a payload parser installed nothing is set aside")
+    u.cover("C05.data.upgraded.fed")
+
+
 def collections_deque(x):
     import collections
 
